@@ -277,4 +277,8 @@ def l195():
 
 R.add('L19.5', l195, [{}], desc='argument type checks', expect=['non-bytes password / non-str hash raise TypeError'])
 
+for _lid in ['L19.1', 'L19.2', 'L19.3', 'L19.4', 'L19.5']:
+    if _lid in R.lemmas:
+        R.lemmas[_lid].api = True
+
 get_harness = R.get_harness
